@@ -67,6 +67,7 @@ type outcome struct {
 	Changed bool   // the offset moved at least once
 	Mid     uint32 // offset after the last intermediate evaluation
 	MidAdv  bool   // an intermediate evaluation advanced the offset
+	Edge    bool   // (Try entry points) an evaluation fell exactly on viewStart+tolerance
 }
 
 // run evaluates the schedule times (ascending, last = T) on a fresh view.
@@ -79,10 +80,22 @@ func (w *world) run(ver int, o0 uint32, times []time.Duration) outcome {
 	for i, t := range times {
 		before := off
 		now := base.Add(t)
-		if ver == 0 {
+		switch ver {
+		case 0:
 			v.ChangeView(&off, now)
-		} else {
+		case 1:
 			v.ChangeViewV1(&off, now)
+		default:
+			// an evaluation exactly on the gate edge is deferred by the strict comparison on
+			// purpose (it fires one nanosecond later); such schedules are not compared
+			if now.Equal(v.GetViewStartTime().Add(tolerance)) {
+				out.Edge = true
+			}
+			if ver == 2 {
+				v.TryChangeView(&off, now)
+			} else {
+				v.TryChangeViewV1(&off, now)
+			}
 		}
 		if off != before {
 			out.Changed = true
@@ -190,11 +203,10 @@ type caseT struct {
 	SubNs   int64   `json:"view_start_subsecond_ns,omitempty"`
 }
 
+// versions: 0 ChangeView, 1 ChangeViewV1, 2 TryChangeView, 3 TryChangeViewV1 (the polling entry
+// points the consensus loop calls: a strict "now after viewStart+tolerance" gate in front).
 func verName(v int) string {
-	if v == 0 {
-		return "ChangeView"
-	}
-	return "ChangeViewV1"
+	return []string{"ChangeView", "ChangeViewV1", "TryChangeView", "TryChangeViewV1"}[v]
 }
 
 // sink collects violations of one job in enumeration order; merged in job order afterwards so
@@ -223,7 +235,7 @@ func (k *sink) mergeInto(r *evid.Run) {
 }
 
 type counters struct {
-	evals, chains, midAdvanced, bothAdvanced, oneshotAdvanced, mono int64
+	evals, chains, midAdvanced, bothAdvanced, oneshotAdvanced, mono, edgeSkipped int64
 }
 
 // compare one chained schedule against the one-shot outcome.
@@ -235,6 +247,10 @@ func (w *world) compare(r *sink, ver int, o0 uint32, times []time.Duration, one 
 		if ch.Offset != ch.Mid {
 			atomic.AddInt64(&ct.bothAdvanced, 1)
 		}
+	}
+	if ch.Edge || one.Edge {
+		atomic.AddInt64(&ct.edgeSkipped, 1)
+		return
 	}
 	if ch.Offset == one.Offset && ch.Rem == one.Rem && ch.OnDuty == one.OnDuty {
 		return
@@ -337,6 +353,15 @@ func main() {
 			}
 		}
 	}
+	// polling entry points TryChangeView / TryChangeViewV1
+	for _, n := range []int{2, 12} {
+		w := newWorld(n, all)
+		for ver := 2; ver < 4; ver++ {
+			for o0 := 0; o0 <= 3*n; o0++ {
+				jobs = append(jobs, job{w, ver, uint32(o0)})
+			}
+		}
+	}
 	var timePoints, dev2 int64
 	sinks := make([]sink, len(jobs))
 	par.Go(len(jobs), func(i int) {
@@ -346,6 +371,9 @@ func main() {
 		g := gridS
 		if i >= mainJobs {
 			g = 60
+			if j.ver >= 2 {
+				g = 100
+			}
 		}
 		ts := w.timeSet(j.ver, j.o0, g, 2*w.n+3)
 		atomic.AddInt64(&timePoints, int64(len(ts)))
@@ -420,23 +448,24 @@ func main() {
 	samples.Add(ncSample)
 	r.Assume = append(r.Assume,
 		"sign tolerance fixed at 5 s (the only value the node uses by default); arbiter list supplied by state.ArbitratorsMock (the view only reads its size and the on-duty key)",
-		"TryChangeView/TryChangeViewV1 (strict 'after' gate in front of the same computation) are not part of the verdict: at an instant exactly on a boundary the gate defers by design",
+		"TryChangeView/TryChangeViewV1 (strict 'after' gate in front of the same computation): schedules in which an evaluation falls exactly on viewStart+tolerance are not compared — the gate defers by one nanosecond by design",
 		"elapsed times are non-negative and below 2^53 ns")
 	finish(evid.Coverage{
 		"evaluations":                                   ct.evals + ct.chains + 2*ncCases,
 		"distinct_nontrivial":                           ct.bothAdvanced + ncMoved,
 		"arbiter_count_change_cases":                    ncCases,
 		"arbiter_count_change_cases_offset_moved_after": ncMoved,
-		"rule":                  fmt.Sprintf("versions {ChangeView, ChangeViewV1} x arbiter counts %v x start offsets 0..3n (plus, for n in {2,12} and a 60 s grid, view start times 0.2 s and 0.8 s past the full second) x instants {1 s grid 0..%d s} ∪ {b-1ns,b,b+1ns for every boundary b of the first 2n+3 views under the one-shot and under the evaluate-at-every-boundary schedule, located by bisection on the real code}; polling schedules: one evaluation at T vs one intermediate evaluation at every earlier instant (thorough: also two intermediate evaluations over boundary instants + 7 s grid, first 150). non-trivial = chained schedules (all distinct) in which the intermediate evaluation moved the offset and the final evaluation moved it again. Family B (long-lived view across an arbiter-count change): both versions x every ordered pair n1 != n2 of the same counts x start offsets {0,1,n1-1,n1,n1+1,n2-1,n2,n2+1,2n1,3n1} x {no reset, ResetView + offset 0 at the change} x every pair t1 < t2 of {1 s grid 0..%d s} ∪ {boundary instants (up to 1200 s) of the first 6 views under n1 and under n2}: the view evaluated at t1 under n1 and at t2 under n2 vs a fresh view with the same offset/start time that only saw n2, evaluated at t2; non-trivial = cases whose post-change evaluation moved the offset", ns, gridS, r.Pick(60, 150)),
-		"exhaustive":            true,
-		"jobs":                  len(jobs),
-		"instants_total":        timePoints,
-		"oneshot_evaluations":   ct.evals,
-		"oneshot_advanced":      ct.oneshotAdvanced,
-		"chained_schedules":     ct.chains,
-		"chained_two_deviation": dev2,
-		"intermediate_advanced": ct.midAdvanced,
-		"both_steps_advanced":   ct.bothAdvanced,
-		"samples":               samples.Out,
+		"rule":                fmt.Sprintf("versions {ChangeView, ChangeViewV1} x arbiter counts %v x start offsets 0..3n (plus, for n in {2,12} and a 60 s grid, view start times 0.2 s and 0.8 s past the full second; plus, for n in {2,12} and a 100 s grid, the polling entry points TryChangeView / TryChangeViewV1, schedules with an evaluation exactly on the strict gate edge viewStart+tolerance excluded) x instants {1 s grid 0..%d s} ∪ {b-1ns,b,b+1ns for every boundary b of the first 2n+3 views under the one-shot and under the evaluate-at-every-boundary schedule, located by bisection on the real code}; polling schedules: one evaluation at T vs one intermediate evaluation at every earlier instant (thorough: also two intermediate evaluations over boundary instants + 7 s grid, first 150). non-trivial = chained schedules (all distinct) in which the intermediate evaluation moved the offset and the final evaluation moved it again. Family B (long-lived view across an arbiter-count change): both versions x every ordered pair n1 != n2 of the same counts x start offsets {0,1,n1-1,n1,n1+1,n2-1,n2,n2+1,2n1,3n1} x {no reset, ResetView + offset 0 at the change} x every pair t1 < t2 of {1 s grid 0..%d s} ∪ {boundary instants (up to 1200 s) of the first 6 views under n1 and under n2}: the view evaluated at t1 under n1 and at t2 under n2 vs a fresh view with the same offset/start time that only saw n2, evaluated at t2; non-trivial = cases whose post-change evaluation moved the offset", ns, gridS, r.Pick(60, 150)),
+		"exhaustive":          true,
+		"jobs":                len(jobs),
+		"instants_total":      timePoints,
+		"oneshot_evaluations": ct.evals,
+		"oneshot_advanced":    ct.oneshotAdvanced,
+		"chained_schedules":   ct.chains,
+		"try_entry_schedules_skipped_on_gate_edge": ct.edgeSkipped,
+		"chained_two_deviation":                    dev2,
+		"intermediate_advanced":                    ct.midAdvanced,
+		"both_steps_advanced":                      ct.bothAdvanced,
+		"samples":                                  samples.Out,
 	})
 }
